@@ -1,7 +1,8 @@
 (* C07 - property theorems only.  `run_obs`/`run_exp` are teststatistic ; distributions ; pvalues /
    expected_pvalues of the transcribed AsymptoticCalculator at the real instance, for an arbitrary cdf Phi. *)
 From Coq Require Import Reals List.
-Require Import PV.Num PV.Asympt PV.AsymptPhi.
+From Coquelicot Require Import Coquelicot.
+Require Import PV.Num PV.Asympt PV.AsymptPhi PV.Gauss.
 Import ListNotations.
 Local Open Scope R_scope.
 
@@ -147,6 +148,38 @@ Theorem C07_band_monotone_normal : gauss_total_stmt -> forall k b q qA, known b 
   nondecr (band_of (run_exp RNum NPhi sqrt k b q qA) 2).
 Proof. exact band_monotone_concrete. Qed.
 
+(* --- the Gaussian integral is a theorem (Gauss.v): the `_unconditional` versions have no premise about the cdf left --- *)
+Theorem C07_gauss_integral : is_lim (fun t => RInt (fun x => exp (- (x * x))) 0 t) p_infty (sqrt PI / 2).
+Proof. exact gauss_integral. Qed.
+Theorem C07_gauss_total : gauss_total_stmt.
+Proof. exact gauss_total. Qed.
+Theorem C07_normal_density_half_integral : is_lim (fun x => RInt nphi 0 x) p_infty (1 / 2).
+Proof. exact nphi_half_integral. Qed.
+Theorem C07_normal_cdf_limit_p : is_lim NPhi p_infty 1.
+Proof. exact NPhi_limit_p. Qed.
+Theorem C07_normal_cdf_limit_m : is_lim NPhi m_infty 0.
+Proof. exact NPhi_limit_m. Qed.
+Theorem C07_normal_cdf_bounds : forall x, 0 < NPhi x < 1.
+Proof. exact NPhi_bounds. Qed.
+Theorem C07_normal_cdf_upper_tail : forall x, 0 <= x -> 1 - 2 / PI * exp (- (x * x) / 2) <= NPhi x <= 1.
+Proof. exact NPhi_upper_tail. Qed.
+Theorem C07_normal_cdf_lower_tail : forall x, 0 <= x -> 0 <= NPhi (- x) <= 2 / PI * exp (- (x * x) / 2).
+Proof. exact NPhi_lower_tail. Qed.
+Theorem C07_normal_cdf_positive_unconditional : cdf_positive NPhi.
+Proof. exact NPhi_positive_unconditional. Qed.
+Theorem C07_normal_cdf_mills_unconditional : forall x, 0 <= nphi x + x * NPhi x.
+Proof. exact mills_unconditional. Qed.
+Theorem C07_normal_cdf_logconcave_unconditional : cdf_logconcave NPhi.
+Proof. exact NPhi_logconcave_unconditional. Qed.
+Theorem C07_ordering_normal_unconditional : forall k b q qA, known b -> 0 <= q -> 0 <= qA ->
+  exists sb bb s, run_obs RNum NPhi sqrt k b q qA = inr (Some sb, Some bb, Some s) /\
+    0 <= sb /\ sb <= bb /\ bb <= 1 /\ 0 <= s /\ s <= 1.
+Proof. exact ordering_unconditional. Qed.
+Theorem C07_band_monotone_normal_unconditional : forall k b q qA, known b -> 0 <= qA ->
+  nondecr (band_of (run_exp RNum NPhi sqrt k b q qA) 0) /\ nondecr (band_of (run_exp RNum NPhi sqrt k b q qA) 1) /\
+  nondecr (band_of (run_exp RNum NPhi sqrt k b q qA) 2).
+Proof. exact band_monotone_unconditional. Qed.
+
 Print Assumptions C07_clsb_q_computed.
 Print Assumptions C07_clb_q_computed.
 Print Assumptions C07_clsb_qtilde_low_computed.
@@ -183,3 +216,16 @@ Print Assumptions C07_clsb_qtilde_high_normal.
 Print Assumptions C07_clb_qtilde_high_normal.
 Print Assumptions C07_ordering_normal.
 Print Assumptions C07_band_monotone_normal.
+Print Assumptions C07_gauss_integral.
+Print Assumptions C07_gauss_total.
+Print Assumptions C07_normal_density_half_integral.
+Print Assumptions C07_normal_cdf_limit_p.
+Print Assumptions C07_normal_cdf_limit_m.
+Print Assumptions C07_normal_cdf_bounds.
+Print Assumptions C07_normal_cdf_upper_tail.
+Print Assumptions C07_normal_cdf_lower_tail.
+Print Assumptions C07_normal_cdf_positive_unconditional.
+Print Assumptions C07_normal_cdf_mills_unconditional.
+Print Assumptions C07_normal_cdf_logconcave_unconditional.
+Print Assumptions C07_ordering_normal_unconditional.
+Print Assumptions C07_band_monotone_normal_unconditional.
